@@ -27,13 +27,18 @@ import (
 //	               suffix                                  (Extract…)
 //
 // and the returned prefix that of the (longest such) name, host bits zero.
-func c05EntryExact(c *Ctx, fname string, extract bool) bool {
+func c05EntryExact(c *Ctx, fname string, extract bool) (okExact bool) {
+	defer recoverUnsupported(c, &okExact, "c05EntryExact")
 	rule := "C05.prefix.accepted-exact"
 	if extract {
 		rule = "C05.extract.accepted-exact"
 	}
 	f := c.fn("netutil", fname)
 	if f == nil || len(f.Params) != 1 {
+		return false
+	}
+	if th := lengthThresholds(f, 80, "ValidateDomainName"); len(th) > 0 {
+		c.L.Notef("%s treats long inputs differently (%s): the lengths evaluated do not cover that; structural rules used instead", fname, th[0])
 		return false
 	}
 	v4tail, v6tail := "in-addr.arpa", "ip6.arpa"
@@ -67,7 +72,16 @@ func c05EntryExact(c *Ctx, fname string, extract bool) bool {
 	}
 	bads := make([]string, len(lengths))
 	errs := make([]error, len(lengths))
-	parallelDo(len(lengths), func(k int) {
+	inQuick := map[int]bool{}
+	for L := 0; L <= 22; L++ {
+		inQuick[L] = true
+	}
+	for _, L := range []int{25, 26, 28, 29, 30, 72, 73} {
+		inQuick[L] = true
+	}
+	var evalOne func(k int)
+	skipped := 0
+	evalOne = func(k int) {
 		L := lengths[k]
 		if os.Getenv("GSA_DBG") != "" {
 			t0 := time.Now()
@@ -298,7 +312,21 @@ func c05EntryExact(c *Ctx, fname string, extract bool) bool {
 				}
 			}
 		}
+	}
+	parallelDo(len(lengths), func(k int) {
+		if gerr := boolfn.Guard(func() { evalOne(k) }); gerr != nil && errs[k] == nil {
+			errs[k] = gerr
+		}
 	})
+	for k, e := range errs {
+		// the thorough tier's extra lengths are evaluated as far as the node
+		// budget goes: beyond it a length is noted, not concluded from
+		if e != nil && !inQuick[lengths[k]] && strings.Contains(e.Error(), "node budget") {
+			c.L.Notef("%s: length %d not evaluated (%v)", fname, lengths[k], e)
+			errs[k], bads[k] = nil, ""
+			skipped++
+		}
+	}
 	for k, e := range errs {
 		if e != nil {
 			if os.Getenv("GSA_DBG") != "" {
@@ -319,6 +347,6 @@ func c05EntryExact(c *Ctx, fname string, extract bool) bool {
 			return true
 		}
 	}
-	c.check(true, rule, f, what, nil, sprintf("equal as Boolean functions of the name's bytes and of ValidateDomainName's verdict, for %d name lengths from %d to %d", len(lengths), lengths[0], lengths[len(lengths)-1]))
+	c.check(true, rule, f, what, nil, sprintf("equal as Boolean functions of the name's bytes and of ValidateDomainName's verdict, for %d name lengths from %d to %d (%d more beyond the node budget)", len(lengths)-skipped, lengths[0], lengths[len(lengths)-1], skipped))
 	return true
 }
